@@ -44,6 +44,9 @@ K_FLAT = clause(W + 'Combination.__init__', 'post:flattened', ['C13'], 'P')
 K_SIG = clause(W + 'Combination.get_signature', 'post:merge_of_parts', ['C13', 'C01'], 'P')
 F_FWD = clause(W + '_Wrapped._sigtools__forger', 'post:forwards', ['C13', 'C04'], 'P')
 L_ORDER = clause(W + 'wrappers', 'post:outermost_first', ['C13'], 'P')
+SG = clause('_util.safe_get', 'post:descriptor_protocol', ['C13', 'C04', 'C12'], 'P',
+            'safe_get(obj, instance, owner) = type(obj).__get__(obj, instance, owner) whenever the type defines __get__ - for EVERY instance, a '
+            'falsy one included (binding a method does not depend on the truth value of the object) - and obj itself otherwise')
 FW = 'specifiers._ForgerWrapper'
 FW_STATE = clause(FW + '.__init__', 'post:state', ['C04'], 'P',
                   'WHATEVER the wrapped object carries in its __dict__ (it may itself be a _ForgerWrapper): __wrapped__ is the object, _signature_forger is '
@@ -261,6 +264,34 @@ def make_runner(mode, cls='_SimpleWrapped', nargs=1, nkeys=1, nfuncs=2, depth=2,
                 return Opaque('merged')
             I.call_hooks['_signatures:merge'] = merge
             harness.run_unit(I, I.getattr_(comb, 'get_signature'), [Opaque('obj')], [], r)
+        elif mode == 'safe_get':
+            um = I.module('sigtools._util')
+            has_get = ctx.decide(z3.Bool('type_defines___get__'))
+            calls = env['get_calls'] = []
+            bound = Opaque('what __get__ returns')
+
+            def getter(*a):
+                calls.append(a)
+                return bound
+
+            class TypeModel:
+                def _vf_getattr(self, interp_, name):
+                    if name == '__get__' and has_get:
+                        return getter
+                    raise PyExc(AttributeError, (name,))
+
+            class Obj(SymObj):
+                def _vf_type(self, interp_):
+                    return TypeModel()
+            obj = Obj('descriptor_or_not', 'function')
+            on_class = ctx.decide(z3.Bool('looked_up_on_the_class'))
+            inst = None
+            if not on_class:
+                inst = SymObj('instance', 'instance')
+                inst.truthy = z3.Bool('instance_is_truthy')
+            owner = Opaque('owner')
+            env.update(obj=obj, inst=inst, owner=owner, bound=bound, has_get=has_get)
+            harness.run_unit(I, um.ns['safe_get'], [obj, inst, owner], [], r)
         elif mode == 'wrappers':
             # a chain of ``depth`` wrapper objects around a plain function, each wrapped by build(); then wrappers.wrappers(outer)
             ws = [Recorder('wrapper%d' % i) for i in range(depth)]
@@ -397,6 +428,17 @@ def vcs(env, want):
             ok = r.outcome == 'return' and ma_ is not None and len(ma_) == 1 + len(fs) and ma_[0] is env['own'] and env.get('plain_of') is env['comb'] and \
                 all(ma_[1 + i] is env['parts'].get(id(f)) for i, f in enumerate(fs))
             out.append(VC(K_SIG.full, [], z3.BoolVal(bool(ok)), K_SIG.props))
+    elif mode == 'safe_get':
+        if on(SG):
+            if r.outcome == 'raise':
+                # (only the truth value of the instance - user code - can raise here, and the real function never asks for it)
+                out.append(VC(SG.full + ':no_exception:' + r.exc.typname, [], z3.BoolVal(False), SG.props))
+            elif env['has_get']:
+                c = env['get_calls']
+                ok = r.value is env['bound'] and len(c) == 1 and c[0][0] is env['obj'] and c[0][1] is env['inst'] and c[0][2] is env['owner']
+                out.append(VC(SG.full, [], z3.BoolVal(bool(ok)), SG.props))
+            else:
+                out.append(VC(SG.full + ':plain_object_returned', [], z3.BoolVal(r.value is env['obj'] and not env['get_calls']), SG.props))
     elif mode == 'wrappers':
         if on(L_ORDER):
             ok = r.outcome == 'return' and len(r.value) == len(env['ws']) and all(a is b for a, b in zip(r.value, env['ws']))
